@@ -507,7 +507,8 @@ def run(ctx):
                             'message types without payload class; random dicts of 2-4 types with up to 12 and up to 120 messages, unsorted and repeated stamps, '
                             'dyadic non-integer stamps (scale 4, 8), message_types given as types or classes in list/tuple/set, including types not in the dict. '
                             'Also: histories of 2-4 steps on the same MessageData objects (to_numpy before/between steps, changing mode and selection), judged after every step; '
-                            'and the property observed through DataLoader.read(time_align, aligned_message_types) on generated log files, selection given as types, classes or mixed. '
+                            'and the property observed through DataLoader.read(time_align, aligned_message_types) on generated log files, selection given as types, classes or mixed, on a fresh loader and inside multi-call histories on one caching loader '
+                            '(read(X); read(Y, Z, time_align, aligned None|subset); read(X) again: aligned result = SPEC on the requested types only, earlier results untouched, re-read = fresh read). '
                             'Identity is observed with `is`, content by a structural snapshot of every attribute before and after, inserted messages against a '
                             'fresh cls(). A case is distinct by (mode, message_types, per-type stamp lists).'
                             % (len(T), '60000 in thorough, 1500 in quick' if ctx.thorough else '1500'))
